@@ -33,6 +33,22 @@ def tdefs(t):
     return d
 
 
+def c13_fp_units():
+    """the compile-time path of the exactly specified cmath functions: C13's twin-table units (constant evaluation vs run time);
+    together with this property's run-time-vs-libm sweeps they tie the constexpr results to libm as well"""
+    import importlib.util, os
+    here = os.path.dirname(os.path.abspath(__file__))
+    spec = importlib.util.spec_from_file_location("c16_clone_c13", os.path.join(here, "C13.py"))
+    mod = importlib.util.module_from_spec(spec)
+    spec.loader.exec_module(mod)
+    out = []
+    for u in mod.P["units"]:
+        if "_fp_" in u.name:
+            out.append(Unit("C16_" + u.name, u.src, std=u.std, defs=u.defs, gen=u.gen, flavours={"quick": ["plain-cc"], "thorough": ["plain-cc", "O0-cc"]},
+                            shards=u.shards, args=u.args, libs=u.libs))
+    return out
+
+
 P = dict(
     registered=True,
     level="exploration",
@@ -74,7 +90,7 @@ P = dict(
              flavours={"quick": ["plain-cc", "asan-cc"], "thorough": ["plain-cc", "asan-cc"]}, shards={"quick": 8, "thorough": 16}),
         Unit("C16_complex_double", "harness/C16_complex.cpp", defs=tdefs("double"),
              flavours={"quick": ["plain-cc", "asan-cc"], "thorough": ["plain-cc", "asan-cc"]}, shards={"quick": 8, "thorough": 16}),
-    ],
+    ] + c13_fp_units(),
     floor={"quick": 500000000, "thorough": 50000000000},
     assumptions=["glibc 2.36 libm and libgcc/libstdc++ 12 are correct references (exact set: correctly rounded by IEEE 754 definition; approximate set: within a few ulp)",
                  "default rounding mode (round-to-nearest-even) and default FP environment; -ffp-contract=off, no -ffast-math",
